@@ -8,7 +8,7 @@ import tracegen as T
 import vcommon as V
 
 
-def drive(chk, drv, system, n, policy, runs, max_steps, args="", seed=None, trace=None, timeout=1500, tag=""):
+def drive(chk, drv, system, n, policy, runs, max_steps, args="", seed=None, trace=None, timeout=1500, tag="", fanout=0):
     out = os.path.join(chk.tmp, "%s-%s-n%d%s.ndjson" % (system, policy, n, tag))
     cmd = [drv, "-system", system, "-n", str(n), "-policy", policy, "-runs", str(runs), "-max-steps", str(max_steps),
            "-seed", str(chk.seed if seed is None else seed), "-out", out]
@@ -16,6 +16,8 @@ def drive(chk, drv, system, n, policy, runs, max_steps, args="", seed=None, trac
         cmd += ["-args", args]
     if trace:
         cmd += ["-trace", trace]
+    if fanout:
+        cmd += ["-fanout", str(fanout)]
     rc, o = V.run(cmd, timeout=timeout)
     if rc != 0:
         raise V.Inconclusive("sysdrv %s %s n=%d failed (rc=%s): %s" % (system, policy, n, rc, o[-2000:]))
@@ -71,14 +73,178 @@ def validate_executions(chk, pid, work, spec, text, runs, consts, invariants, pr
     return res
 
 
-def guided(chk, pid, drv, work, system, n, args, behaviours, what, max_report=3, as_violation=True):
+def fanout_conformance(chk, pid, work, module, text, out, consts, what, chunks=8, timeout=2400, max_edges=4000, piece=300):
+    """Go edges are spec edges, from every state a TLC behaviour visits: sysdrv -policy guided -fanout K writes,
+    for every state the generated code reached while following the behaviour, every other committed successor
+    (all processes, all choice resolutions) as a "succ" line. TLC validates each as: jump back to the visited
+    state, then the logged process/label's action of the specification leading to the successor."""
+    variables = T.extract_vars(text)
+    labels = T.extract_labels(text)
+    runs, metas = [], []
+    cur = None
+    nsucc = 0
+    for ln in V.read_jsonl(out):
+        e = ln["e"]
+        if e == "case":
+            cur = {"steps": [], "succ": [], "meta": ln}
+            runs.append(cur)
+        elif cur is None:
+            continue
+        elif e == "step":
+            cur["steps"].append(ln)
+        elif e == "succ" and nsucc < max_edges:
+            cur["succ"].append(ln)
+            nsucc += 1
+        elif e == "succ-error":
+            pre = cur["steps"][ln.get("run", 0)]["state"] if cur["steps"] else None
+            chk.violation("%s:%s:go-error:%s" % (pid, what.split()[0], ln.get("label")),
+                          "%s: generated code failed (assertion / panic) from a state of a TLC behaviour at label %s: %s" % (what, ln.get("label"), ln.get("msg")),
+                          {"what": what, "pre_state": pre, "proc": ln.get("proc"), "label": ln.get("label"), "choices": ln.get("choices"), "msg": ln.get("msg")})
+    data, index = [], []
+    pieces = []
+    for r in runs:
+        if not r["steps"] or not r["succ"]:
+            continue
+        # split the successors of one run into pieces (each piece re-walks the run's own steps up to the
+        # last state it needs), so that TLC jobs can run side by side
+        succ = sorted(r["succ"], key=lambda x: x.get("run", 0))
+        for i in range(0, len(succ), piece):
+            part = succ[i:i + piece]
+            last = max(x.get("run", 0) for x in part)
+            pieces.append({"steps": r["steps"][:last + 1] if i + piece < len(succ) else r["steps"], "succ": part, "meta": r["meta"]})
+    for r in pieces:
+        recs = [{"state": l["state"], "proc": l.get("proc"), "label": l.get("label")} for l in r["steps"]]
+        back = [("step", i) for i in range(len(recs))]
+        for sc in r["succ"]:
+            at = sc.get("run", 0)
+            recs.append(("j", at, ""))
+            back.append(("jump", at))
+            recs.append(("s", 0, sc["state"], sc.get("proc"), sc.get("label")))
+            back.append(("succ", sc))
+        data.append(recs)
+        index.append((r, back))
+    if not data:
+        return {"edges": 0, "accepted": 0}
+    res = T.validate_runs(work, module, variables, data, consts, [], [], chunks=min(chunks, len(data)), timeout=timeout, labels=labels, conform=True, max_rounds=4)
+    chk.states += res["states"]; chk.transitions += res["transitions"]
+    for e in res["errors"]:
+        chk.inconclusive.append("fanout validation (%s): %s" % (what, e[-700:]))
+    for rj in res["rejected"]:
+        r, back = index[rj["run_index"]]
+        k = rj["state_index"] - 1
+        kind, ref = back[k] if 0 <= k < len(back) else ("?", None)
+        if kind == "succ":
+            sc = ref
+            pre = r["steps"][sc.get("run", 0)]["state"]
+            chk.violation("%s:%s:step-not-in-spec:fanout:%s" % (pid, what.split()[0], sc.get("label")),
+                          "%s: from a state visited by a TLC behaviour the generated code commits a step at label %s (process %s) that is not the specification's step" % (what, sc.get("label"), sc.get("proc")),
+                          {"what": what, "pre_state": pre, "post_state": sc["state"], "proc": sc.get("proc"), "label": sc.get("label"), "choices": sc.get("choices")})
+        else:
+            chk.drift.append({"what": what, "fanout_record": kind, "text": rj["text"]})
+    return {"edges": nsucc, "accepted": res["accepted"], "rejected": len(res["rejected"])}
+
+
+def walk_conformance(chk, pid, work, module, text, out, consts, what, piece=2500, par=8, timeout=2400, max_rounds=3):
+    """Validate sysdrv -policy walk-* output: every step of each walk and every sampled successor of every
+    visited state must be the logged label's action of the specification (I->S, diff-encoded, see tracegen)."""
+    variables = T.extract_vars(text)
+    labels = T.extract_labels(text)
+    runs, cur = [], None
+    for ln in V.read_jsonl(out):
+        e = ln["e"]
+        if e == "case":
+            cur = {"steps": [], "succ": {}, "meta": ln}
+            runs.append(cur)
+        elif cur is None:
+            continue
+        elif e == "step":
+            cur["steps"].append(ln)
+        elif e == "succ":
+            cur["succ"].setdefault(ln.get("run", 0), []).append(ln)
+        elif e in ("succ-error", "error"):
+            pre = cur["steps"][ln.get("run", 0)]["state"] if (e == "succ-error" and cur["steps"]) else (cur["steps"][-1]["state"] if cur["steps"] else None)
+            chk.violation("%s:%s:go-error:%s" % (pid, what.split()[0], ln.get("label")),
+                          "%s: generated code failed (assertion / panic) from a reachable state at label %s: %s" % (what, ln.get("label"), ln.get("msg")),
+                          {"what": what, "pre_state": pre, "proc": ln.get("proc"), "label": ln.get("label"), "choices": ln.get("choices"), "msg": ln.get("msg")})
+    # cut every walk into pieces of about `piece` records; a piece starts with the full state of a step
+    pieces = []
+    nedges = nsteps = 0
+    for ri, r in enumerate(runs):
+        steps = r["steps"]
+        if not steps:
+            continue
+        i, skip_succ = 0, False
+        while True:
+            recs = [{"k": "i", "st": steps[i]["state"]}]
+            back = [("init", ri, i, None)]
+            first, j, finished = i, i, False
+            while True:
+                if not (j == first and skip_succ):
+                    for sc in r["succ"].get(j, []):
+                        recs.append({"k": "a", "p": sc.get("proc"), "lb": sc.get("label"), "d": sc.get("d") or {}})
+                        back.append(("succ", ri, j, sc))
+                        recs.append({"k": "u", "d": sc.get("u") or {}})
+                        back.append(("undo", ri, j, sc))
+                        nedges += 1
+                if j + 1 >= len(steps):
+                    finished = True
+                    break
+                if len(recs) >= piece:
+                    break
+                j += 1
+                recs.append({"k": "a", "p": steps[j].get("proc"), "lb": steps[j].get("label"), "d": steps[j].get("d") or {}})
+                back.append(("step", ri, j, steps[j]))
+                nsteps += 1
+            pieces.append({"recs": recs, "back": back, "init": first == 0})
+            if finished:
+                break
+            i, skip_succ = j, True   # the next piece starts in the state this one ended in
+    if not pieces:
+        return {"edges": 0, "steps": 0, "pieces": 0}
+    todo = list(range(len(pieces)))
+    rejected = 0
+    for _ in range(max_rounds):
+        res = T.validate_walk_pieces(work, module, variables, [pieces[k] for k in todo], consts, labels, timeout=timeout, par=par)
+        nxt = []
+        for k, r in zip(todo, res):
+            chk.states += r["states"]; chk.transitions += r["generated"]
+            pc = pieces[k]
+            if r["error"]:
+                chk.inconclusive.append("walk validation (%s): %s" % (what, r["error"][-700:]))
+            elif r["ok"]:
+                continue
+            else:
+                j = r["stuck_at"]
+                kind, ri, si, ln = pc["back"][j] if j is not None and j < len(pc["back"]) else ("?", 0, 0, None)
+                if kind in ("succ", "step"):
+                    rejected += 1
+                    pre = runs[ri]["steps"][si if kind == "succ" else si - 1]["state"]
+                    chk.violation("%s:%s:step-not-in-spec:%s:%s" % (pid, what.split()[0], "fanout" if kind == "succ" else "walk", ln.get("label")),
+                                  "%s: from a reachable state the generated code commits a step at label %s (process %s) that is not the specification's step for that label" % (what, ln.get("label"), ln.get("proc")),
+                                  {"what": what, "meta": runs[ri]["meta"], "pre_state": pre, "changed": ln.get("d"), "proc": ln.get("proc"), "label": ln.get("label"), "choices": ln.get("choices"), "step_index": si})
+                    # drop the offending record (and its undo) and re-validate the rest of the piece
+                    drop = 2 if kind == "succ" else len(pc["recs"]) - j
+                    pc["recs"] = pc["recs"][:j] + pc["recs"][j + drop:]
+                    pc["back"] = pc["back"][:j] + pc["back"][j + drop:]
+                    if len(pc["recs"]) > 1:
+                        nxt.append(k)
+                else:
+                    chk.drift.append({"what": what, "walk_record": kind, "note": "record not accepted"})
+        todo = nxt
+        if not todo:
+            break
+    chk.traces += len(runs)
+    return {"edges": nedges, "steps": nsteps, "pieces": len(pieces), "rejected": rejected}
+
+
+def guided(chk, pid, drv, work, system, n, args, behaviours, what, max_report=3, as_violation=True, fanout=0):
     """S->I: replay TLC behaviours (lists from tracegen.parse_tlc_states) through the generated code.
     A behaviour the Go cannot follow is a conformance violation (reported under pid)."""
     tf = os.path.join(chk.tmp, "guided-%s-n%d.ndjson" % (system, n))
     with open(tf, "w") as f:
         for i, b in enumerate(behaviours):
             f.write(json.dumps({"id": "b%d" % i, "states": [x["state"] for x in b]}) + "\n")
-    out = drive(chk, drv, system, n, "guided", 0, 0, args=args, trace=tf, tag="-g")
+    out = drive(chk, drv, system, n, "guided", 0, 0, args=args, trace=tf, tag="-g", fanout=fanout)
     runs = []
     cur = None
     div = 0
@@ -236,6 +402,14 @@ def conformance(chk, pid, table, drv, tier, do_guided=True):
         stats["random"].append({"n": n, "runs": len(rs), "accepted": r["accepted"], "states": sum(len(x["states"]) for x in rs)})
         if rs:
             chk.sample({"system": name, "kind": "execution under Run", "n": n, "seed": rs[0]["meta"].get("seed"), "schedule_prefix": schedule_of(rs[0], 10)})
+    for cfg in table.get("walk", {}).get(tier, []):
+        # seeded walks of the fresh-context executor; a label-balanced sample of ALL successors of every visited
+        # state is validated by TLC (Go edges are spec edges, from states deep in the reachable space)
+        n, args = cfg["n"], cfg.get("args", "")
+        cs = subst_consts(table, n, args, cfg.get("consts_override"))
+        out = drive(chk, drv, name, n, "walk-" + cfg.get("policy", "biased"), cfg["runs"], cfg["steps"], args=args, tag="-walk", fanout=cfg.get("edges", 1000))
+        fo = walk_conformance(chk, pid, work, module, text, out, cs, "%s n=%d walk" % (name, n), piece=cfg.get("piece", 2500))
+        stats.setdefault("walk", []).append(dict(fo, n=n, runs=cfg["runs"], steps=cfg["steps"]))
     if do_guided:
         for cfg in table.get("guided", {}).get(tier, []):
             n, args = cfg["n"], cfg.get("args", "")
@@ -248,9 +422,10 @@ def conformance(chk, pid, table, drv, tier, do_guided=True):
             chk.add_tlc("%s simulation behaviours n=%d" % (name, n), res)
             behs = [b for b in behs if b]
             if behs:
-                followed, total, _ = guided(chk, pid, drv, work, name, n, args, behs, "%s n=%d" % (name, n))
+                followed, total, gout = guided(chk, pid, drv, work, name, n, args, behs, "%s n=%d" % (name, n), fanout=cfg.get("fanout", 50))
                 chk.traces += followed
-                stats["guided"].append({"n": n, "followed": followed, "total": total})
+                fo = fanout_conformance(chk, pid, work, module, text, gout, cs, "%s n=%d" % (name, n), max_edges=cfg.get("max_edges", 3000))
+                stats["guided"].append({"n": n, "followed": followed, "total": total, "fanout": fo})
     return stats
 
 
